@@ -14,7 +14,9 @@ use ferrous::storage::StorageEngine;
 use std::collections::{BTreeMap, BTreeSet};
 use std::time::Duration;
 
-pub const PATTERNS: &[&[u8]] = &[b"*", b"k*", b"k0?", b"*1", b"[ab]*", b"k[0-1]*", b"[^k]*", b"a", b"zz*", b"", b"k\\0*", b"*:*", b"k[", b"**", b"?", b"k*5", b"[a-c]"];
+pub const PATTERNS: &[&[u8]] = &[b"*", b"k*", b"k0?", b"*1", b"[ab]*", b"k[0-1]*", b"[^k]*", b"a", b"zz*", b"", b"k\\0*", b"*:*", b"k[", b"**", b"?", b"k*5", b"[a-c]",
+    // not UTF-8 (the pool holds the key \x00\xffb): bytes are matched, not lossy text (17322e9)
+    b"\x00\xfe*", b"\x00\xff*", b"\x00?b", b"*\xff*", b"\x00[\xfe-\xff]b", b"\x00[^\xff]b"];
 pub const TYPES: &[&[u8]] = &[b"string", b"set", b"hash", b"zset", b"list", b"STRING", b"bogus", b"stream", b""];
 pub const COUNTS: &[i64] = &[1, 2, 3, 4, 5, 7, 10, 0, 100, 1000, 1001, 20];
 pub const SCORES: &[f64] = &[0.0, 1.0, -1.0, 2.5, 1e3, -0.0, 3.0, 1e100, f64::INFINITY, f64::NEG_INFINITY, 0.1, 9007199254740991.0, 4503599627370496.5, 123456789.0];
